@@ -375,6 +375,10 @@ def gen_case(run_seed: int, tier: str, index: int | None = None) -> dict[str, An
         elif cg.random() < 0.3:
             body = "[formatting]\n" + body
         tree[cname] = {"f": b2j(body.encode())}
+    if cg.random() < 0.08:
+        # a config file that is NOT the project's: it sits in a sub-directory, the command runs in
+        # the project directory, so it has no say (whatever mix of files is named)
+        tree[cg.choice(["docs/.flowmark.toml", "docs/flowmark.toml", "docs/sub/.flowmark.toml"])] = {"f": b2j(f"width = {cg.choice([24, 33, 50])}\nsemantic = true\nlist-spacing = \"loose\"\n".encode())}
     k = sub_rng(run_seed, "knobs")
     invs = []
     for j in range(w.choice([1, 2, 3, 3, 4, 6])):
